@@ -18,6 +18,7 @@ static bool refused(const std::string &api, long rc) {
 static int pick_desc(World &W, const Slot &s, const std::string &dm, int var, bool *ok) {
     *ok = true;
     if (dm == "live") { if (!s.live) *ok = false; return s.desc; }
+    if (dm == "next") { if (!&next_backend_desc) { *ok = false; return 0; } int d = next_backend_desc + 1 + (var & 1); if (W.live_descs.count(d)) *ok = false; return d; }   // a descriptor nobody has been given (yet)
     if (dm == "last") { if (s.live || s.desc <= 0) *ok = false; return s.desc; }   // the descriptor this slot had before it was destroyed
     if (dm == "dead") {
         if (W.dead_descs.empty()) { *ok = false; return -1; }
@@ -43,6 +44,7 @@ static void op_badcall(World &W, const Json &op) {
     bool ok; int desc = pick_desc(W, s, dm, var, &ok);
     if (!ok) { W.probe("badcall.skipped-no-descriptor"); return; }
     bool desc_bad = dm != "live";
+    bool racing_desc = dm == "next";   // valid or not depends on whether another thread's create completes first: only "no fault" is demanded
     const Obj *t = s.live ? template_obj(W, s) : nullptr;
     // synthetic template when the slot has no stripe (dead / never descriptors still need plausible other arguments)
     Obj synth;
@@ -76,6 +78,9 @@ static void op_badcall(World &W, const Json &op) {
         char *out = nullptr; u64 ol = 0;
         int num = (mask & 2) ? ((var & 4) ? k - 1 : bad_nums[var & 3]) : n;
         u64 fl = (mask & 4) ? bad_lens[var & 3] : t->flen;
+        // a NULL entry inside the list (a caller marking a missing fragment that way): refusing it and skipping it are both
+        // acceptable, so only "no crash, nothing retained" is judged when that is the call's only oddity
+        if (mask & 32) { fr[(size_t) var % fr.size()] = nullptr; if (mask == 32 && !desc_bad) judged = false; }
         rc = liberasurecode_decode(desc, (mask & 1) ? nullptr : fr.data(), num, fl, (var >> 3) & 1, (mask & 8) ? nullptr : &out, (mask & 16) ? nullptr : &ol);
         if (rc == 0 && out) liberasurecode_decode_cleanup(desc, out);
         if (rc == 0 && !desc_bad && mask == 2 && num == k - 1 && k - 1 >= 1) { /* fewer than k fragments must not decode */ }
@@ -90,6 +95,7 @@ static void op_badcall(World &W, const Json &op) {
         int bd = bad_dest[(var >> 2) % 7]; if (bd == 0 || bd == 1) bd += s.live ? s.cfg.n() : n;
         int dest = (mask & 8) ? bd : n - 1;
         // fr without the last fragment so that the destination is genuinely missing
+        if (mask & 32) { fr[(size_t) var % (fr.size() > 1 ? fr.size() - 1 : 1)] = nullptr; if (mask == 32 && !desc_bad) judged = false; }   // a NULL entry inside the list
         rc = liberasurecode_reconstruct_fragment(desc, (mask & 1) ? nullptr : fr.data(), num, fl, dest, (mask & 16) ? nullptr : (char *) out);
     } else if (api == "fragments_needed") {
         // mask 8 / 16: an index outside 0..k+m-1 in the rebuild / exclude list (the lists are -1 terminated, so only values >= k+m)
@@ -110,6 +116,7 @@ static void op_badcall(World &W, const Json &op) {
         rc = is_invalid_fragment(desc, (mask & 1) ? nullptr : fr[0]);
     } else if (api == "verify_stripe_metadata") {
         int num = (mask & 2) ? bad_nums[var & 3] : n;
+        if (mask & 4) { fr[(size_t) var % fr.size()] = nullptr; if (mask == 4 && !desc_bad) judged = false; }   // a NULL entry inside the list
         rc = liberasurecode_verify_stripe_metadata(desc, (mask & 1) ? nullptr : fr.data(), num);
     } else if (api == "get_aligned_data_size") {
         rc = liberasurecode_get_aligned_data_size(desc, (u64) (var * 37 + 1)); judged = desc_bad;
@@ -132,6 +139,7 @@ static void op_badcall(World &W, const Json &op) {
         if (rc > 0) { liberasurecode_instance_destroy((int) rc); }
     } else { W.probe("badcall.unknown-api"); thread_arena().release_all(); return; }
     W.trace.add("badcall.rc", rc);
+    if (racing_desc) judged = false;
     if (judged) {
         const char *what = desc_bad ? (dm == "dead" || dm == "last" ? "dead-descriptor" : "unknown-descriptor") : "invalid-argument";
         if (noop_ok) W.probe("badcall.cleanup-noop");
@@ -389,6 +397,17 @@ static void op_mass(World &W, const Json &op) {
     W.probe("mass.done");
 }
 
+// an instance the application never destroys: it is still registered when the process exits and the library's
+// destructor runs (judged by the sanitizers at exit; attributed to the worker's last runs by the driver)
+static void op_orphan(World &W, const Json &op) {
+    struct ec_args a; memset(&a, 0, sizeof a); a.k = op["k"].in(3); a.m = op["m"].in(2); a.hd = op["hd"].in(2); a.ct = CHKSUM_NONE;
+    cur().api = "instance_create";
+    size_t live0 = own::live();
+    int d = liberasurecode_instance_create((ec_backend_id_t) op["be"].in(EC_BACKEND_FLAT_XOR_HD), &a);
+    W.trace.add("orphan.ok", d > 0);
+    if (d > 0) { W.live_descs.insert(d); W.orphan_blocks += (long) own::live() - (long) live0; W.fault("ORPHAN_INSTANCE"); }
+}
+
 void exec_op_misc(World &W, const Json &op, const std::string &kind) {
     if (kind == "MASS") { op_mass(W, op); return; }
     if (kind == "BADCALL") op_badcall(W, op);
@@ -397,5 +416,6 @@ void exec_op_misc(World &W, const Json &op, const std::string &kind) {
     else if (kind == "SETCTR") op_setctr(W, op);
     else if (kind == "ISAL") op_isal(W, op);
     else if (kind == "DESTROY_DEAD") op_destroy_dead(W, op);
+    else if (kind == "ORPHAN") op_orphan(W, op);
     else W.probe("op.unknown");
 }
